@@ -138,9 +138,84 @@ def judge(c, e, o, r):
     return None
 
 
+class NotifAfterNotif:
+    """two consecutive sessions of one peer (the outbound FSM object is reused), each ended by a NOTIFICATION that corebgp
+    sends: the first a Cease from the plugin's handler (no hold-down follows) carrying `d1` as data, the second the answer to a
+    header fault.  On each connection exactly one NOTIFICATION arrives, with exactly the code, subcode and data it was built
+    with, and nothing else"""
+    no_model = True
+
+    def __init__(self, sid, direction, d1, fault_kind):
+        self.sid, self.direction, self.d1, self.kind = sid, direction, d1, fault_kind
+        self.tag = "notification-after-notification.%s.%s.data%d" % (direction, fault_kind, len(d1))
+        self.remote_id = 0x0A000002
+
+    def fault(self):
+        if self.kind == "length":
+            return S.frame(S.KEEPALIVE, b"", length=18), bytes([1, 2, 0, 18])
+        if self.kind == "type":
+            return S.frame(9), bytes([1, 3, 9])
+        if self.kind == "marker":
+            return S.frame(S.KEEPALIVE, marker=b"\xff" * 15 + b"\x00"), bytes([1, 1])
+        return S.frame(S.OPEN, S.open_body(ver=3)), bytes([2, 1, 0, 4])            # in OpenSent
+
+    def scenario(self):
+        op, ka, upd = S.frame(S.OPEN, S.open_body()).hex(), S.frame(S.KEEPALIVE).hex(), S.frame(S.UPDATE, bytes(4)).hex()
+        f, _ = self.fault()
+        st = []
+        c = "c1"
+        st += [["dial", c]] if self.direction == "in" else [["accept", c, 2500]]
+        st += [["recv", c, 1, 1500], ["send", c, op, 0], ["send", c, ka, 0], ["recv", c, 2, 1500], ["sleep", 20],
+               ["send", c, upd, 0], ["recv_eof", c, 1500], ["sleep", 30]]
+        c = "c2"
+        st += [["dial", c]] if self.direction == "in" else [["accept", c, 2500]]
+        st += [["recv", c, 1, 1500]]
+        if self.kind != "version":
+            st += [["send", c, op, 0], ["send", c, ka, 0], ["recv", c, 2, 1500], ["sleep", 20]]
+        st += [["send", c, f.hex(), 0], ["recv_eof", c, 1500], ["sleep", 20]]
+        return {"id": self.sid, "local_as": 65001, "remote_as": 65000, "local_id": 0x0A000001, "hold": 90,
+                "passive": self.direction == "in", "idle_hold_ms": 60, "connect_retry_ms": 300, "caps": [], "on_open": None,
+                "handler": [[6, 4, self.d1.hex()]], "est_writes": [], "steps": st}
+
+    def model_case(self):
+        return None
+
+    def check(self, r):
+        bad = []
+        want = {"c1": bytes([6, 4]) + self.d1, "c2": self.fault()[1]}
+        for name in ("c1", "c2"):
+            c = next((x for x in r["conns"] if x["name"] == name), None)
+            if c is None:
+                bad.append("connection %s was never made" % name)
+                break
+            ns = [m["b"] for m in (c["msgs"] or []) if m["t"] == 3]
+            if c.get("garbage"):
+                bad.append("%s: octets that are not a whole BGP message arrived from corebgp: %s" % (name, c["garbage"][:80]))
+            elif ns != [want[name].hex()]:
+                bad.append("%s: corebgp must send exactly one NOTIFICATION %s with the code, subcode and data it was built with; observed %s"
+                           % (name, want[name].hex(), [x[:80] for x in ns]))
+        return bad
+
+
+def notif_items(tier):
+    out = []
+    sid = 900
+    for direction in ("out", "in"):
+        for kind in ("length", "type", "marker", "version"):
+            for d1 in (b"", b"\xaa", bytes(range(40))):
+                out.append(NotifAfterNotif(sid, direction, d1, kind))
+                sid += 1
+    return out
+
+
 def sys_part(tier, rng, rep, replay):
     cov = sysrun.run_convs(PID, convs(rng, tier), rep)
-    cov["rule"] = "live sessions with header faults at each state"
+    covn = sysrun.run_convs(PID, notif_items(tier), rep, extra_check=lambda c, e, o, r: c.check(r), par=12)
+    cov["rule"] = ("live sessions with header faults at each state || two consecutive sessions of one peer each ended by a NOTIFICATION "
+                   "corebgp sends (handler Cease with 0/1/40 data octets, then a header or version fault): exactly that NOTIFICATION "
+                   "and nothing else on each connection")
+    cov["notification_after_notification_scenarios"] = covn.get("evaluations", 0)
+    cov["evaluations"] = cov.get("evaluations", 0) + covn.get("evaluations", 0)
     return cov
 
 
